@@ -394,7 +394,9 @@ def run_cadence(case):
     res.states += p.events
     res.trans += p.events
     cc = dict(case)
-    if p.exc is not None:
+    if p.exc is not None and type(p.exc).__name__ == "Horizon":
+        res.bump("horizon_reached")  # the harness's own cap on the number of iterations, not a failure of the library
+    elif p.exc is not None:
         res.violate(f"pipe:raises:{type(p.exc).__name__}", f"run raised {p.exc!r} (cfg={case['cfg']})", cc)
         return res
     for key, msg, det in p.viol[:3]:
@@ -488,8 +490,8 @@ def plan(ctx):
         for kern in ("tpcn", "rwm"):
             for tgt in ("bimodal", "unequal"):
                 for tape in range(6 if th else 3):
-                    c.append({"kind": "cadence", "base": ctx.seed + 1000 * tape, "all_checkpoints": False, "cfg": dict(clustering=True, cluster_every=1 + (npart % 2), ess_ratio=4.0 * (1 + tape % 2), sample=kern, normalize=True,
-                                                                                                                        n_max_clusters=None, target=tgt, n_particles=npart, n_total=40)})
+                    c.append({"kind": "cadence", "base": ctx.seed + 1000 * tape, "all_checkpoints": False, "cfg": dict(clustering=True, cluster_every=1 + (npart % 2), ess_ratio=4.0 if tape % 2 else 2.0, sample=kern, normalize=True,
+                                                                                                                        n_max_clusters=None, target=tgt, n_particles=npart, n_total=30)})
     ctx.bounds.update({"scripted": {"K": [2, 3], "m": [4, 5, 6], "n_resampled": 3}, "cadence": {"cluster_every": [1, 2, 3, 4, 5, 7], "configs": len(c), "resume": "from every checkpoint"}})
     if not th:
         ctx.notes.append("quick: one quarter of the cadence lattice and one eighth of the three-blob pools (rotated by VERIF_SEED); every selected run is resumed from every checkpoint")
